@@ -1,6 +1,7 @@
 import FV.Props.C02
 import FV.Props.C12
 import FV.Accepts
+import FV.SizeView
 /-! # C02 — the acceptance set, constructor by constructor
 
 "`from_bytes` succeeds iff the slice is suitably aligned and holds a well-formed encoding": the alignment / minimum-size gate is
@@ -52,4 +53,15 @@ theorem C02_flex_accepts_iff (it : Ty) (h : it.WF) (l : LenTy) (hl : l.Law) (dat
     flexValidate it.dict l (max l.size it.dict.align) (data.len + 1) 0 data = .ok () ↔
       ∃ items, Chain it.dict l (max l.size it.dict.align) 0 data items :=
   C12_valid_iff_sequence it h l hl data
+
+/-- **C02 (d): the value's own bytes validate.** For every well-formed type and every slice that `from_bytes` accepts:
+`size() ≤ as_bytes().len() ≤` the slice length, and `from_bytes(x.as_bytes())` succeeds — the first `as_bytes().len()` bytes
+validate again. (`size ≤ view` is a sixth per-combinator law, `SizeView`, assembled by recursion over the type.) -/
+theorem C02_own_bytes_validate (t : Ty) (h : t.WF) (s : Slice) (hv : t.dict.validate s = .ok ()) :
+    ∃ z v, t.dict.size s = .ok z ∧ t.dict.viewLen s.len = .ok v ∧ z ≤ v ∧ v ≤ s.len ∧ t.dict.validate (s.take v) = .ok () :=
+  own_bytes_validate t h s hv
+
+/-- non-vacuity: `S1 { a: u32, b: FlatVec<u8,u16> }` with two elements in a 13-byte slice: size 8, view 12 -/
+example : S1.dict.validate ⟨0, [1,0,0,0, 2,0, 7,8, 9,9,9,9, 9]⟩ = .ok () ∧ S1.dict.size ⟨0, [1,0,0,0, 2,0, 7,8, 9,9,9,9, 9]⟩ = .ok 8 ∧
+    S1.dict.viewLen 13 = .ok 12 := by decide +kernel
 end FV.Props
